@@ -363,6 +363,9 @@ def e2e_structures(tier):
     for backend in ("cirq", "sympy"):
         for k in range(6 if tier == "quick" else 30):
             sts.append({"backend": backend, "k": k, "n": 2 + k % 2, "depth": 2 + k % 4, "init": k % 3 == 0})
+        # classical reversible circuits: the outcome is certain, so exact and sampled mode must report the same single bitstring
+        for k in range(3 if tier == "quick" else 12):
+            sts.append({"backend": backend, "k": 100 + k, "n": 3, "depth": 3 + k % 3, "init": False, "classical": True})
     return sts
 
 
@@ -371,13 +374,16 @@ def e2e_structures(tier):
           targets=[(BK, "Backend.simulate"), (TGC, "CirqSimulator.simulate_circuit"), (TGS, "SympySimulator.simulate_circuit")])
 def o10(h, st):
     """bounded: simulate(c, return_statevector=True[, initial_statevector=v]) returns U(c) v (or U(c)|0>) in the advertised index order and the
-    outcome distribution |amplitude|^2 keyed qubit-0-first, for random circuits over the full gate set"""
+    outcome distribution |amplitude|^2 keyed qubit-0-first, for random circuits over the full gate set; in sampled mode (25 shots) the drawn bitstrings lie in
+    that support with frequencies k/25, and a certain outcome (classical reversible circuits) is reported with frequency one"""
     import random
     import numpy as np
     from tangelo.linq import get_backend
     rnd = random.Random(int(h.integer("seed")) * 31 + st["k"])
     n = st["n"]
     names = SYMPY_NAMES if st["backend"] == "sympy" else ALL_NAMES
+    if st.get("classical"):
+        names = [x for x in ("X", "CNOT", "SWAP", "CX") if x in names]
     gates = []
     for _ in range(st["depth"]):
         name = rnd.choice(names)
@@ -415,6 +421,22 @@ def o10(h, st):
     probs = {format(i, f"0{n}b"): abs(exp[i]) ** 2 for i in range(2 ** n) if abs(exp[i]) ** 2 > 1e-9}
     ok = all(len(k) == n for k in freqs) and all(abs(complex(freqs.get(k, 0.0)) - probs.get(k, 0.0)) < 1e-6 for k in set(freqs) | set(probs))
     h.check("outcome distribution == |amplitude|^2, keys qubit 0 first", ok, detail=f"{freqs} vs {probs}")
+    # sampled mode: the drawn bitstrings lie in the exact support (equal to it when the outcome is certain), frequencies are multiples of 1/n_shots
+    np.random.seed(rnd.randint(0, 2 ** 31 - 1))
+    shots = 25
+    sims = get_backend(st["backend"], n_shots=shots)
+    if st["init"]:
+        f2, _ = h.call(BK, "Backend.simulate", sims, c, False, init if st["backend"] == "cirq" else np.array(init).reshape(-1, 1))
+    else:
+        f2, _ = h.call(BK, "Backend.simulate", sims, c)
+    # (the symbolic backend accepts n_shots but reports the exact distribution, listing outcomes of probability ~1e-33: compared with a tolerance)
+    f2 = {k: float(v) for k, v in f2.items() if abs(float(v)) > 1e-9}
+    h.check("sampled mode: outcomes inside the exact support, keyed qubit 0 first", set(f2) <= set(probs) and all(len(k) == n for k in f2), detail=f"{f2} vs {probs}")
+    h.check("sampled mode: frequencies sum to one", abs(sum(f2.values()) - 1) < 1e-6)
+    if st["backend"] == "cirq":
+        h.check("sampled mode: multiples of 1/n_shots", all(abs(v * shots - round(v * shots)) < 1e-9 for v in f2.values()))
+    if len(probs) == 1:
+        h.check("sampled mode: a certain outcome is reported with frequency one", set(f2) == set(probs) and all(abs(v - 1.0) < 1e-9 for v in f2.values()), detail=str(f2))
     h.done()
 
 
